@@ -9,6 +9,7 @@ from . import load
 from . import modroute
 from . import metaeval as M
 from . import paths as P
+from . import walkers
 
 _cache = {}
 
@@ -139,18 +140,18 @@ def route_grammars(R):
         # one rule per nesting depth, so that every position of the block-budget threshold is
         # crossed: two sibling elements that are both split out of one enclosing function
         rules = []
-        for d in range(4, 30):
+        for d in range(9, 24):
             e = R.Seq(R.Seq(R.Str('a'), R.Str('b')), R.Seq(R.Str('c'), R.Str('d')))
             for i in range(d):
                 e = R.Seq(e)
             rules.append(R.Rule(f'S{d}', e))
-        for d in range(4, 30, 3):
+        for d in range(10, 24, 4):
             e = R.Seq(R.List(R.Left(R.Seq(R.Ref('X')), R.Str(';'))), R.Seq(R.Str('c'), R.Ref('X')))
             for i in range(d):
                 e = R.Seq(e) if i % 2 else R.Opt(e)
             rules.append(R.Rule(f'M{d}', e))
-        return [R.Rule('start', R.Ref('S4'))] + rules + [R.Rule('X', R.Regex('b+'))]
-    G.append(('deep-nesting-threshold', deep_threshold, {}))
+        return [R.Rule('start', R.Ref('S9'))] + rules + [R.Rule('X', R.Regex('b+'))]
+    G.append(('deep-nesting-threshold', deep_threshold, {'names': (None,)}))
 
     def let():
         return [R.Rule('start', R.Let('x', R.Ref('X'), R.Call(R.Ref('T'), [R.Ref('x')]))),
@@ -230,7 +231,7 @@ def emitted_modules():
     R = modroute.Routes()
     out = []
     for label, build, kw in route_grammars(R):
-        for name in (None, 'gmod'):
+        for name in kw.get('names', (None, 'gmod')):
             body = build()
             e = R.emit(f'{label}[ctx={int(name is not None)}]', body, name=name)
             if isinstance(e, modroute.Emitted):
@@ -1412,6 +1413,15 @@ def adaptor_rules(bad, stats):
             if len(ps) != 1 or ps[0].end[0] != 'return':
                 raise AnalysisError(f'{what}: {cname}.__call__ changed shape')
             r = ps[0].end[1]
+            # a record class may be unpacked instead of read by field name: self#i is self.<field i>
+            rec = None
+            for bse in c.bases:
+                if isinstance(bse, ast.Call) and ast.unparse(bse.func).split('.')[-1] in ('_nt', 'namedtuple') \
+                        and len(bse.args) == 2 and isinstance(bse.args[1], ast.Constant):
+                    fv = bse.args[1].value
+                    rec = tuple(fv.replace(',', ' ').split()) if isinstance(fv, str) else tuple(fv)
+            if rec:
+                r = walkers.substitute(r, {('UNPACK', SELF, i): ('ATTR', SELF, f) for i, f in enumerate(rec)})
             if want_fn:
                 want = ('CALL', ('ATTR', SELF, want_fn)) + PRE
                 if r != want:
